@@ -115,7 +115,7 @@ func c04main(c *Ctx) {
 		case 4:
 			lg.Info("warm-up record in JSON", "w", "x")
 		}
-		evs := capture(log, func() { lg.LogAttrs(bg, cs.lvl, cs.msg, anyAttrs(cs.kvs)...) })
+		evs := capture(log, func() { lg.LogAttrs(bg, cs.lvl, cs.msg, mixedArgs(cs.kvs)...) })
 		desc := describe(FJSON, cs.name, cs.msg, cs.lvl, cs.caller, cs.kvs)
 		desc["logger_timestamp_options"] = desc0
 		desc["other_flags"], desc["same_logger_logged_before_in"] = otherFlags, []string{"-", "-", "logfmt", "color", "json", "a record that panicked while being formatted (recovered)"}[warm]
@@ -221,7 +221,7 @@ func c04isolate(w mon.W, log *mon.Log, cs c04case) []string {
 	}
 	try := func(sub c04case) bool {
 		lg := newRoot(sub.name, FJSON, w, slog.AlwaysLevel)
-		evs := capture(log, func() { lg.LogAttrs(bg, sub.lvl, sub.msg, anyAttrs(sub.kvs)...) })
+		evs := capture(log, func() { lg.LogAttrs(bg, sub.lvl, sub.msg, mixedArgs(sub.kvs)...) })
 		if len(evs) != 1 {
 			return true
 		}
